@@ -331,7 +331,7 @@ class ValueOracle:
             d = dict(zip(a0.ufl_free_indices, a0.ufl_index_dimensions)).get(j)
             if d is None:
                 return
-            terms = [self.ask(a0, comp, env, dict(idx, **{j: k}), memo) for k in range(d)]
+            terms = [self.ask(a0, comp, env, {**idx, j: k}, memo) for k in range(d)]
             f = lambda v: v[r] == sum((v[t] for t in terms), _V(0))
         elif name == "ComponentTensor":
             a0, mi = args
@@ -402,10 +402,132 @@ class ValueOracle:
         return n, bad
 
 
+class OperatorOracle:
+    """public operators (`T[key]`, `a * b`) against their documented meaning, through the denotational eval of the operands:
+    repeated indices are summed, slices become axes, scalar*tensor is componentwise, matrix*vector/matrix contracts."""
+
+    def __init__(self, rng):
+        self.rng = rng
+        self.vo = ValueOracle(rng)
+        self.n = 0
+        self.keep = []     # the serializer memoises by id(): every serialised object must stay alive
+
+    def getitem_case(self, G, env, memo):
+        import ufl, ufl.classes as C
+        rng = self.rng
+        sh = rng.choice([(2,), (3,), (2, 2), (2, 3), (3, 2), (2, 2, 2)])
+        fiT = tuple(rng.sample(G.idxpool, rng.choice([0, 0, 1])))
+        T = G.expr(sh, fiT, rng.randint(0, 3))
+        if rng.random() < 0.4:      # a component tensor over pool indices, to be indexed with its own indices
+            idx = []
+            for d in sh:
+                idx.append(G.index(avoid=tuple(fiT) + tuple(idx), dim=d))
+            T = ufl.as_tensor(G.expr((), tuple(fiT) + tuple(idx), 1) + G.leaf((), tuple(fiT) + tuple(idx)), tuple(idx))
+            if rng.random() < 0.5:
+                key = tuple(reversed(idx)) if len(set(sh)) == 1 else tuple(idx)
+            else:
+                key = tuple(idx)
+        else:
+            key = []
+            for d in sh:
+                r = rng.random()
+                key.append(rng.randrange(d) if r < 0.35 else (slice(None) if r < 0.55 else G.index(dim=d)))
+            key = tuple(key)
+        try:
+            R = T[key]
+        except Exception:
+            return
+        if not isinstance(R, ufl.core.expr.Expr):
+            return
+        self.keep.append((T, R, key))
+        # expected value: free (non-repeated) indices from idx env, slices from the component, repeated indices summed
+        counts = {}
+        for k in key:
+            if isinstance(k, C.Index):
+                counts[k.count()] = counts.get(k.count(), 0) + 1
+        Tfi = dict(zip(T.ufl_free_indices, T.ufl_index_dimensions))
+        repeated = [c for c, n in counts.items() if n > 1 or c in Tfi]
+        dims = dict(Tfi)
+        for pos, k in enumerate(key):
+            if isinstance(k, C.Index):
+                dims[k.count()] = sh[pos]
+        free = [c for c in dims if c not in repeated]
+        want_fi = set(free)
+        nsl = sum(1 for k in key if isinstance(k, slice))
+        if set(R.ufl_free_indices) != want_fi or len(R.ufl_shape) != nsl:
+            self.vo.checks.append(("T[key] free indices/shape", lambda v: False,
+                                   dict(kind="shape:getitem", args=[repr(T)[:300], repr(key)], component=[], idx={})))
+            return
+        idx = {c: rng.randrange(dims[c]) for c in free}
+        comps = list(itertools.product(*[range(n) for n in R.ufl_shape]))
+        comp = rng.choice(comps) if comps else ()
+        r = self.vo.ask(R, comp, env, idx, memo)
+        terms = []
+        for vals in itertools.product(*[range(dims[c]) for c in repeated]):
+            ix = dict(idx); ix.update(dict(zip(repeated, vals)))
+            sl = iter(comp)
+            cT = tuple(k if isinstance(k, int) else (next(sl) if isinstance(k, slice) else ix[k.count()]) for k in key)
+            terms.append(self.vo.ask(T, cT, env, ix, memo))
+        self.vo.checks.append(("(%s)[%s]" % (str(T)[:80], key), (lambda r, terms: lambda v: v[r] == sum((v[t] for t in terms), _V(0)))(r, terms),
+                               dict(kind="value:getitem", args=[repr(T)[:400], repr(key)], component=list(comp), idx=idx)))
+        self.n += 1
+
+    def mult_case(self, G, env, memo):
+        import ufl
+        rng = self.rng
+        mode = rng.choice(["ss", "ss", "st", "ts", "mv", "mm"])
+        if mode == "ss":
+            f1 = tuple(rng.sample(G.idxpool, rng.choice([0, 1, 2])))
+            f2 = tuple(rng.sample(G.idxpool, rng.choice([0, 1, 2])))
+            a, b = G.expr((), f1, rng.randint(0, 2)), G.expr((), f2, rng.randint(0, 2))
+        elif mode in ("st", "ts"):
+            sh = rng.choice([(2,), (2, 3)])
+            f1 = tuple(rng.sample(G.idxpool, rng.choice([0, 1])))
+            a, b = G.expr((), f1, rng.randint(0, 2)), G.expr(sh, (), rng.randint(0, 2))
+            if mode == "ts":
+                a, b = b, a
+        else:
+            n, m, k = rng.choice([2, 3]), rng.choice([2, 3]), rng.choice([2, 3])
+            a = G.expr((n, m), (), rng.randint(0, 2))
+            b = G.expr((m,), (), rng.randint(0, 2)) if mode == "mv" else G.expr((m, k), (), rng.randint(0, 2))
+        try:
+            R = a * b
+        except Exception:
+            return
+        self.keep.append((a, b, R))
+        da = dict(zip(a.ufl_free_indices, a.ufl_index_dimensions)); db = dict(zip(b.ufl_free_indices, b.ufl_index_dimensions))
+        shared = [c for c in da if c in db]
+        dims = dict(da); dims.update(db)
+        free = [c for c in dims if c not in shared]
+        if set(R.ufl_free_indices) != set(free):
+            self.vo.checks.append(("a*b free indices", lambda v: False, dict(kind="shape:mult", args=[repr(a)[:300], repr(b)[:300]], component=[], idx={})))
+            return
+        idx = {c: rng.randrange(dims[c]) for c in free}
+        comps = list(itertools.product(*[range(n) for n in R.ufl_shape]))
+        comp = rng.choice(comps) if comps else ()
+        r = self.vo.ask(R, comp, env, idx, memo)
+        pairs = []
+        for vals in itertools.product(*[range(dims[c]) for c in shared]):
+            ix = dict(idx); ix.update(dict(zip(shared, vals)))
+            if mode in ("ss",):
+                pairs.append((self.vo.ask(a, (), env, ix, memo), self.vo.ask(b, (), env, ix, memo)))
+            elif mode == "st":
+                pairs.append((self.vo.ask(a, (), env, ix, memo), self.vo.ask(b, comp, env, ix, memo)))
+            elif mode == "ts":
+                pairs.append((self.vo.ask(a, comp, env, ix, memo), self.vo.ask(b, (), env, ix, memo)))
+            else:
+                for t in range(a.ufl_shape[1]):
+                    pairs.append((self.vo.ask(a, (comp[0], t), env, ix, memo), self.vo.ask(b, (t,) + tuple(comp[1:]), env, ix, memo)))
+        self.vo.checks.append(("(%s) * (%s)" % (str(a)[:60], str(b)[:60]),
+                               (lambda r, pairs: lambda v: v[r] == sum((v[x] * v[y] for x, y in pairs), _V(0)))(r, pairs),
+                               dict(kind="value:mult", args=[repr(a)[:400], repr(b)[:400]], component=list(comp), idx=idx)))
+        self.n += 1
+
+
 class C05(Prop):
     pid = "C05"
     lean_modules = ["UflVerif.Props.C05"]
-    min_theorems = 3
+    min_theorems = 8
     trusted = ["correspondence harness/props/c05.py + Drivers/Expr.lean `(mk ...)`; generator gen.py; serializer uflio.py; typecode translator",
                "modelled rather than verified: Python float arithmetic in literal folding (exact rationals in the model; generated literals are small dyadic rationals); "
                "object identity (`is`) in the ListTensor collapse rules is modelled by structural equality"]
@@ -460,6 +582,18 @@ class C05(Prop):
             if canon(impl) != canon(rep) and len(fails) < 10:
                 fails.append(Failure("correspondence", "mk" + name, "args: %s | impl: %s | model: %s" % (
                     " ; ".join(str(a)[:100] for a in args), (str(r)[:200] if kind == "ok" else r), rep[:300]), case=rq[:3000]))
+        oo = OperatorOracle(random.Random(ctx.seed + 78))
+        for k in range(n * 3):
+            G2 = gen.Gen(rng, gdim=rng.choice([2, 3]), math=False, compound=False, derivs=False, reuse=0.85)
+            e2 = gen.ValueEnv(rng, G2).wire()
+            m2 = {}
+            for _ in range(2):
+                oo.getitem_case(G2, e2, m2)
+                oo.mult_case(G2, e2, m2)
+        nop, obad = oo.vo.run()
+        for desc, data in obad:
+            self.bad.append(("public operator: value / free indices of %s differ from the documented meaning (component %s, indices %s)" % (desc, data["component"], data["idx"]), data))
+        ev.cov["operator_oracle_checks"] = nop
         nval, vbad = vo.run()
         for desc, data in vbad:
             self.bad.append(("value of %s differs from the operation applied to the operand values (component %s, indices %s)" % (desc, data["component"], data["idx"]), data))
